@@ -142,6 +142,8 @@ class C19(object):
                         "workers": rnd.choice([1, 1, 2, 3])} for _ in range(rnd.randint(1, 3))]
         return {"entry": "run_iradon", "ncores": ncores, "ystep": ystep, "ny": ny, "full": full, "nang": nang, "ymin": ymin,
                 "zero_cols": rnd.choice(["none", "none", "halves", "random", "random", "one"]), "segments": rnd.choice([1, 2, 2, 3, 5]),
+                "pbp_setmask": rnd.random() < 0.2, "mask_layout": rnd.choice(["c", "c", "f", "t", "view"]),
+                "nonsquare": [rnd.randint(0, 9), rnd.randint(0, 9)],
                 "gs_hist": gs_hist, "sino_layout": rnd.choice(["c", "c", "f", "view", "list_angles"]),
                 "y0_off_steps": off, "r_frac": rnd.uniform(0, 0.85), "phi": rnd.uniform(0, 2 * np.pi), "workers": workers,
                 "workers2": rnd.choice([1, 2, 3, 6]), "filter": rnd.choice(["hamming", "hamming", "ramp", "shepp-logan"]),
@@ -193,6 +195,62 @@ class C19(object):
             ri.concurrent, ri.np = saved, saved_np
             RacyArray._sched = None
         return np.asarray(out["r"]), sched
+
+    def pbp_setmask(self, desc, omega, ny, ymin, ystep, y0, sx, sy, meas, V):
+        """PBPRefine.setmask: the sinogram of all peaks (here: of one point grain) is reconstructed on the refinement grid
+        with the module's own shift; the reconstruction it makes (recorded at its run_iradon call) must put the grain
+        where the geometry says"""
+        from types import SimpleNamespace
+        with contextlib.redirect_stdout(io.StringIO()):
+            from ImageD11.sinograms import point_by_point as pbp
+        geo = self.geo
+        ybincens = ymin + ystep * np.arange(ny)
+        ybinedges = np.concatenate([ybincens - ystep / 2, [ybincens[-1] + ystep / 2]])
+        ostep = omega[1] - omega[0]
+        obinedges = np.concatenate([omega - ostep / 2, [omega[-1] + ostep / 2]])
+        dset = SimpleNamespace(ystep=ystep, ybincens=ybincens, ybinedges=ybinedges, obincens=omega, obinedges=obinedges,
+                               refmapfile=None, refpeaksfile=None, refoutfile=None, refmanfile=None)
+        rec = {}
+        real = pbp.run_iradon
+
+        def recording(*a, **k):
+            k["workers"] = 1
+            rec["recon"] = real(*a, **k)
+            return rec["recon"]
+        try:
+            pbp.run_iradon = recording
+            with contextlib.redirect_stdout(io.StringIO()):
+                ref = pbp.PBPRefine(dset, "phase", y0=y0)
+                pts = geo.step_grid_from_ybincens(ybincens, ystep, 1, y0)
+                ref.setmap(SimpleNamespace(i=np.array([q[0] for q in pts]), j=np.array([q[1] for q in pts])))
+                dty = geo.dty_values_grain_in_beam(sx, sy, y0, omega)
+                c = (dty - ymin) / ystep
+                prof = np.rint(30 * np.exp(-0.5 * ((np.arange(ny)[:, None] - c[None, :]) / 0.8) ** 2)).astype(int)
+                aa, bb = np.nonzero(prof)
+                reps = prof[aa, bb]
+                ref.icolf = SimpleNamespace(dty=np.repeat(ybincens[aa], reps), omega=np.repeat(omega[bb], reps))
+                ref.setmask()
+        except Exception as e:
+            if runner.is_harness_exception(e):
+                raise
+            return V("raises", "PBPRefine.setmask raised %s: %s" % (type(e).__name__, e))
+        finally:
+            pbp.run_iradon = real
+        rc = rec.get("recon")
+        meas["pbp_setmask_runs"] = 1
+        if rc is None:
+            return V("raises", "PBPRefine.setmask did not reconstruct anything")
+        if rc.shape != ref.sx_grid.shape or np.asarray(ref.mask).shape != rc.shape:
+            return V("grain-misplaced", "PBPRefine.setmask: reconstruction %s / mask %s do not have the shape of the refinement grid %s" %
+                     (rc.shape, np.asarray(ref.mask).shape, ref.sx_grid.shape))
+        ri, rj = geo.step_to_recon(*geo.sample_to_step(sx, sy, ystep), recon_shape=rc.shape)
+        mi, mj = np.unravel_index(np.argmax(rc), rc.shape)
+        dist = float(np.hypot(mi - ri, mj - rj))
+        if dist > 1.5:
+            return V("grain-misplaced", "PBPRefine.setmask: the grain at sample (%.3f, %.3f) is reconstructed at (%d, %d), the geometry "
+                                        "predicts (%.2f, %.2f): %.2f px (ny %d, y0 %.2f steps from the first row)" %
+                     (sx, sy, mi, mj, ri, rj, dist, ny, (y0 - ymin) / ystep))
+        return None
 
     def grainsino_history(self, desc, sino, omega, ny, ymin, ystep, y0, sx, sy, R, meas, V):
         """one GrainSinogram object reconstructed several times while the estimate of y0 (hence shift and pad) is
@@ -265,7 +323,7 @@ class C19(object):
         lx, ly = geo.sample_to_lab(sx, sy, y0, dty_t, om_t)
         bx, by = geo.lab_to_sample(lx, ly, y0, dty_t, om_t)
         si, sj = geo.sample_to_step(sx, sy, ystep)
-        shape = (ny + 7, ny + 7)
+        shape = (ny + 7 + desc.get("nonsquare", [0, 0])[0], ny + 7 + desc.get("nonsquare", [0, 0])[1])
         rci, rcj = geo.step_to_recon(si, sj, shape)
         inv = [np.abs(bx - sx).max(), np.abs(by - sy).max(),
                abs(geo.step_to_sample(si, sj, ystep)[0] - sx), abs(geo.step_to_sample(si, sj, ystep)[1] - sy),
@@ -367,7 +425,18 @@ class C19(object):
             # (3) ROI
             mask = g.random(ref.shape) < 0.15
             mask[max(0, int(rs_i) - 3):int(rs_i) + 4, max(0, int(rs_j) - 3):int(rs_j) + 4] = True
-            roi, sch2 = self.recon(sino, omega, pad, shift, workers, mask, desc, simulate=mt)
+            ML = desc.get("mask_layout", "c")
+            mask_l = mask
+            if ML == "f":
+                mask_l = np.asfortranarray(mask)
+            elif ML == "t":
+                mask_l = np.ascontiguousarray(mask.T).T          # a transposed view
+            elif ML == "view":
+                bigm = np.zeros((mask.shape[0], 2 * mask.shape[1]), bool)
+                bigm[:, ::2] = mask
+                mask_l = bigm[:, ::2]
+            meas["roi_mask_layout"] = {ML: 1}
+            roi, sch2 = self.recon(sino, omega, pad, shift, workers, mask_l, desc, simulate=mt)
             d = np.abs(roi[mask] - ref[mask]).max()
             if not d <= 1e-10 * mx:
                 viol = V("roi-dependent", "restricting the reconstruction to a region-of-interest mask changes the values on the mask "
@@ -399,6 +468,8 @@ class C19(object):
             if not d <= lim:
                 viol = V("not-linear", "iradon(a*s1+s2) differs from a*iradon(s1)+iradon(s2) by %.3g (limit %.3g; empty "
                                        "projections: %s)" % (d, lim, zc))
+        if viol is None and desc.get("pbp_setmask") and R >= 3:
+            viol = self.pbp_setmask(desc, omega, ny, ymin, ystep, y0, sx, sy, meas, V)
         if viol is None and desc.get("gs_hist"):
             viol = self.grainsino_history(desc, sino, omega, ny, ymin, ystep, y0, sx, sy, R, meas, V)
         sig = "%s/%s/%s" % (enginea.sha(ystep, ny, desc["full"], desc["nang"], desc["y0_off_steps"], desc["r_frac"], desc["phi"]),
